@@ -123,7 +123,35 @@ func mutate(rng *rand.Rand, b []byte) ([]byte, string) {
 	if len(out) == 0 {
 		return out, "empty"
 	}
-	switch rng.Intn(9) {
+	switch rng.Intn(10) {
+	case 9:
+		// a structurally valid datagram whose node header claims an absurd entry count
+		key := []byte("\xa7entries")
+		var at []int
+		for i := 0; i+len(key) < len(out); i++ {
+			if string(out[i:i+len(key)]) == string(key) {
+				at = append(at, i)
+			}
+		}
+		if len(at) > 1 {
+			at = at[1:] // the first one belongs to the packet header, which nobody reads
+		}
+		for _, i := range at {
+			if rng.Intn(len(at)) == 0 || i == at[len(at)-1] {
+				j := i + len(key)
+				huge := []byte{0xcf, 0x40, 0, 0, 0, 0, 0, 0, 0} // uint64 2^62
+				if rng.Intn(3) == 0 {
+					huge = []byte{0xd3, 0x80, 0, 0, 0, 0, 0, 0, 0} // int64 min
+				}
+				if rng.Intn(4) == 0 {
+					huge = []byte{0xce, 0x7f, 0xff, 0xff, 0xff} // uint32 2^31-1
+				}
+				// the original count is a positive fixint (one byte) in our traffic
+				res := append(append(append([]byte{}, out[:j]...), huge...), out[j+1:]...)
+				return res, "entries-count"
+			}
+		}
+		return out, "entries-count-none"
 	case 0:
 		for i := 1 + rng.Intn(3); i > 0; i-- {
 			out[rng.Intn(len(out))] ^= 1 << uint(rng.Intn(8))
